@@ -17,5 +17,7 @@ Check (C11_invalid_frame_is_never_delivered) : (forall plane s o, s_stopped s = 
 Print Assumptions C11_invalid_frame_is_never_delivered.
 Check (C11_outgoing_messages_leave_unchanged) : (forall plane s d q, s_stopped s = false -> lookup d (s_addr s) <> None -> memN d (s_gone s) = false -> snd (sstep plane s (ODlSend d q)) = [DFrame (FReq q)]).
 Print Assumptions C11_outgoing_messages_leave_unchanged.
+Check (C11_sender_messages_leave_unchanged) : (forall plane s d q, s_stopped s = false -> memN d (s_senders s) = true -> memN d (s_gone s) = false -> snd (sstep plane s (ODlSend d q)) = [DFrame (FReq q)]).
+Print Assumptions C11_sender_messages_leave_unchanged.
 Check (C11_cleanup_witness) : (let p1 := {| p_kind := PEvent; p_node := 1; p_lane := 0; p_body := Some 901 |} in let p2 := {| p_kind := PEvent; p_node := 1; p_lane := 1; p_body := Some 902 |} in srun [] sock0 [OAttach 1 1 0; OAttach 2 1 1; ODrop 1; OInResp p1; OInResp p2] = [[]; []; []; []; [DResp 2 p2]]).
 Print Assumptions C11_cleanup_witness.
